@@ -1098,6 +1098,10 @@ class Interp:
             if cl.startswith("ghost:"):
                 self.exec_ghost(cl[6:], env, extra=extra)
                 continue
+            if cl.startswith("check:"):
+                self.path.prove(self.eval_spec(cl[6:], env, extra=extra), "%s/assert-after:%s#%d" % (c.short, key, i), "assert",
+                                where=cl[6:], assume_form=z3.BoolVal(True))
+                continue
             self.path.prove(self.eval_spec(cl, env, extra=extra), "%s/assert-after:%s#%d" % (c.short, key, i), "assert", where=cl)
 
     def ev_Yield(self, n, env):
@@ -1961,7 +1965,32 @@ class Interp:
         raise BreakSig()
 
     def ex_Continue(self, s, env):
+        # cut point at a `continue` of the verified function: key "skip:while" / "skip:for" (kind of the innermost
+        # enclosing loop).  Its clauses say under which documented conditions an iteration may be skipped.
+        c = self.cur_contract
+        if c is not None and getattr(c, "asserts", None) and len(self.fn_stack) == 1 and any(k.startswith("skip:") for k in c.asserts):
+            self.run_cut("skip:" + self._enclosing_loop_kind(s), env)
         raise ContinueSig()
+
+    def _enclosing_loop_kind(self, s):
+        pm = self.__dict__.get("_skip_parents")
+        node = getattr(self.fn_stack[0], "node", None)
+        if pm is None or pm[0] is not node:
+            par = {}
+            if node is not None:
+                for n in ast.walk(node):
+                    for ch in ast.iter_child_nodes(n):
+                        par[id(ch)] = n
+            pm = (node, par)
+            self.__dict__["_skip_parents"] = pm
+        n = s
+        while n is not None:
+            n = pm[1].get(id(n))
+            if isinstance(n, ast.While):
+                return "while"
+            if isinstance(n, ast.For):
+                return "for"
+        return "?"
 
     def ex_Global(self, s, env):
         env.globals_decl.update(s.names)
